@@ -249,4 +249,19 @@ Contract(RC, 'HTTPWARCRecorderSession.end_response', dict(HS, response=TObj('HTT
     ensures=[('one-response-record', 'self._recorder.g_written == old(self._recorder.g_written) + 1'),
              ('block-untouched-unless-revisit', 'implies(self._url_table is None, %s.block_file.content == old(%s.block_file.content))' % (RR, RR))],
     raises={'OSError': []})
+# ---- C05: the payload offset of a response record is the end of the header block as received (position of the temp file when the response is announced) -------
+Assumed('wpull/warc/format.py', 'WARCRecord.__init__', {'self': TObj('WARCRecord')}, modifies=['self.fields', 'self.block_file'], ensures=['self.block_file is None'], raises={},
+        note='fresh record: empty field list, no block file')
+Assumed('wpull/warc/format.py', 'WARCRecord.set_common_fields', {'self': TObj('WARCRecord'), 'warc_type': TStr(), 'content_type': TStr()}, modifies=['self.fields.map', 'self.fields.count'], raises={},
+        note='type, content type, date and record id fields (uuid, clock): not examined here')
+declare_class('HTTPRequest', {'address': TTuple(TStr(), TInt()), 'url_info': TObj('URLInfo')})
+Contract(RC, 'HTTPWARCRecorderSession.begin_response', dict(HS, response=TObj('HTTPResponse')), prop='C05',
+    names={'HTTPResponse.to_bytes': 'HTTPResponse.to_bytes@len'},
+    requires=['self._request is not None', 'self._request_record is not None', 'self._response_temp_file.pos == len(self._response_temp_file.content)'],
+    modifies=['self._response_record', 'self._response_payload_offset'],
+    ensures=[('payload-offset-is-the-end-of-the-received-header-block', 'self._response_payload_offset == len(self._response_temp_file.content)'),
+             ('block-is-the-temp-file', '%s is not None and %s.block_file is self._response_temp_file' % (RR, RR)),
+             ('nothing-consumed', 'self._response_temp_file.content == old(self._response_temp_file.content) and self._response_temp_file.pos == old(self._response_temp_file.pos)')],
+    raises={'AssertionError': [], 'KeyError': []},
+    note='begin_response is notified after the status line and header block have been reported through response_data, before any body byte')
 Assumed('wpull/protocol/http/request.py', 'Response.to_bytes', {'self': TObj('HTTPResponse')}, name='HTTPResponse.to_bytes@len', ret=TBytes(), raises={}, note='only the length is used (payload offset)')
